@@ -211,3 +211,6 @@ func (t *transport) Name() string {
 func (t *transport) Send([]*packet.Packet) {}
 
 func (t *transport) DoClose(types.Callable) {}
+
+// Nothing to start: the base transport reads nothing on its own.
+func (t *transport) Start() {}
